@@ -139,7 +139,7 @@ fn plan(p: &mut Plan<'_>) {
         }
         "C07" | "C10" => {
             let clauses = if p.ctx.prop == "C07" { journalsim::C07_CLAUSES } else { journalsim::C10_CLAUSES };
-            p.part(journalsim::JournalSim { clauses }, 600_000, 60_000_000, "two-endpoint journal simulation: packet assemblies (built, trivial, abandoned) through drop/dup/reorder channels, receiver ACK generation at drawn capacities, acks / loss reports / fast retransmit / expiry on the virtual clock; non-trivial = some fault fired and packets were received and acknowledged; distinct = hash of the event history");
+            p.part(journalsim::JournalSim { clauses }, 600_000, 20_000_000, "two-endpoint journal simulation: packet assemblies (built, trivial, abandoned) through drop/dup/reorder channels, receiver ACK generation at drawn capacities, acks / loss reports / fast retransmit / expiry on the virtual clock; non-trivial = some fault fired and packets were received and acknowledged; distinct = hash of the event history");
             if p.ctx.prop == "C07" {
                 p.part(netsim::NetSim { mode: netsim::Mode::C07 }, 400, 40_000, "whole-stack share: C02-style client/server runs (loss, duplication, reordering, delay, corruption, black holes, PTO probes, retransmission, closing) with a capturing event log on both endpoints; per connection object and packet-number space the numbers of the packets that leave the endpoint, in assembly order, must strictly increase and never repeat (0-RTT and 1-RTT share a space); non-trivial = a fault fired and the handshake or a stream progressed; distinct = hash of wire + application trace");
             }
